@@ -63,3 +63,7 @@ def diff_merge_once(ctx, prog):
 diff_merge_once.rule_id = "C15.DTAB-diff-source"
 
 RULES = [ops_filter_mapi, ops_fold, ops_merge, ops_partition, pair, diff_merge_once]
+
+# control signature of the bookkeeping effects this property depends on (rules/ctrlsig.py)
+from .ctrlsig import make_rule as _ctrl_rule  # noqa: E402
+RULES.append(_ctrl_rule("C15"))
